@@ -42,6 +42,38 @@ let () =
   reg "usubBorrow" (function [x; y] -> let (r, c) = usubBorrow x y in [r; c] | _ -> failwith "arity");
   reg "umulExtended" (function [x; y] -> let (m, l) = umulExtended x y in [m; l] | _ -> failwith "arity");
   reg "imulExtended" (function [x; y] -> let (m, l) = imulExtended (norm true w32 x) (norm true w32 y) in [umod w32 m; umod w32 l] | _ -> failwith "arity")
+  ;
+  (* C18: arguments are  sg (0/1)  w  then the operands as w-bit patterns (counts / shifts as 32-bit int patterns); results are patterns *)
+  let i32 z = norm true w32 z in
+  let bz v = if v then z_of_u64 1L else Z0 in
+  let un name f = reg name (function [sg; w; x] -> [umod w (f (b sg) w (norm (b sg) w x))] | _ -> failwith "arity") in
+  reg "isPowerOfTwo" (function [sg; w; x] -> [bz (isPowerOfTwo (b sg) w (norm (b sg) w x))] | _ -> failwith "arity");
+  reg "isPowerOfTwoV" (function [sg; w; x] -> [bz (isPowerOfTwoV (b sg) w (norm (b sg) w x))] | _ -> failwith "arity");
+  un "ceilPowerOfTwo" ceilPowerOfTwo; un "floorPowerOfTwo" floorPowerOfTwo; un "roundPowerOfTwo" roundPowerOfTwo;
+  un "lowestBitValue" lowestBitValue; un "highestBitValue" highestBitValue; un "powerOfTwoAbove" powerOfTwoAbove;
+  un "powerOfTwoBelow" powerOfTwoBelow; un "powerOfTwoNearest" powerOfTwoNearest;
+  let bin name f = reg name (function [sg; w; x; y] -> [umod w (f (b sg) w (norm (b sg) w x) (norm (b sg) w y))] | _ -> failwith "arity") in
+  bin "ceilMultiple" ceilMultiple; bin "floorMultiple" floorMultiple; bin "roundMultiple" roundMultiple;
+  reg "isMultiple" (function [sg; w; x; y] -> [bz (isMultiple (b sg) w (norm (b sg) w x) (norm (b sg) w y))] | _ -> failwith "arity");
+  reg "findNSB" (function [sg; w; x; n] -> [umod w32 (findNSB (b sg) w (norm (b sg) w x) (i32 n))] | _ -> failwith "arity");
+  reg "mask" (function [sg; w; x] -> [umod w (mask0 (b sg) w (norm (b sg) w x))] | _ -> failwith "arity");
+  reg "bitfieldRotateRight" (function [sg; w; x; s] -> [umod w (bitfieldRotateRight (b sg) w (norm (b sg) w x) (i32 s))] | _ -> failwith "arity");
+  reg "bitfieldRotateLeft" (function [sg; w; x; s] -> [umod w (bitfieldRotateLeft (b sg) w (norm (b sg) w x) (i32 s))] | _ -> failwith "arity");
+  reg "bitfieldFillOne" (function [sg; w; x; f; c] -> [umod w (bitfieldFillOne (b sg) w (norm (b sg) w x) (i32 f) (i32 c))] | _ -> failwith "arity");
+  reg "bitfieldFillZero" (function [sg; w; x; f; c] -> [umod w (bitfieldFillZero (b sg) w (norm (b sg) w x) (i32 f) (i32 c))] | _ -> failwith "arity");
+  (* floating multiples on a dyadic grid: s, m are int32 patterns of the scaled integers, `one` the scaled 1 *)
+  reg "f_ceilMultiple" (function [s; m] -> [umod w32 (f_ceilMultiple (i32 s) (i32 m))] | _ -> failwith "arity");
+  reg "f_floorMultiple" (function [s; m] -> [umod w32 (f_floorMultiple (i32 s) (i32 m))] | _ -> failwith "arity");
+  reg "f_roundMultiple" (function [s; m; o] -> [umod w32 (f_roundMultiple (i32 s) (i32 m) (i32 o))] | _ -> failwith "arity");
+  reg "pow_int" (function [x; y] -> [umod w32 (pow_int (i32 x) y)] | _ -> failwith "arity");
+  reg "pow_uint" (function [x; y] -> [umod w32 (pow_uint x y)] | _ -> failwith "arity");
+  reg "sqrt_int" (function [x] -> [umod w32 (sqrt_int (i32 x))] | _ -> failwith "arity");
+  reg "sqrt_uint" (function [x] -> [umod w32 (sqrt_uint x)] | _ -> failwith "arity");
+  reg "mod_int" (function [x; y] -> [umod w32 (mod_int (i32 x) (i32 y))] | _ -> failwith "arity");
+  reg "mod_uint" (function [x; y] -> [umod w32 (mod_uint x y)] | _ -> failwith "arity");
+  reg "factorial" (function [sg; w; x] -> [umod w (factorial (b sg) w (norm (b sg) w x))] | _ -> failwith "arity");
+  reg "nlz" (function [x] -> [umod w32 (nlz x)] | _ -> failwith "arity")
+
 
 let () =
   let counts : (string, int * int) Hashtbl.t = Hashtbl.create 64 in
